@@ -343,7 +343,32 @@ func checkC19(p *Prog, r *Report) {
 				nb++
 				t := stripVersions(e.Val).single()
 				ok := t != nil && t.C.Cmp(ratInt(1)) == 0 && len(t.M) == 1 && t.M[0].E == 1 && (t.M[0].A.Root == "GlobalVarsMain.BULK" || strings.HasSuffix(t.M[0].A.Root, ".BULK"))
-				r.Ob("BD-source", p.Pos(e.Pos), ok, fmt.Sprintf("BD[layer] = %s (must be BULK[horizon] unchanged: the conductivity formula 3·BD − 1.7 turns negative below 0.567)", e.Val))
+				// stored for the 10 cm layer being expanded (same index as the layer's field capacity), from that layer's horizon
+				idxOK := false
+				if len(e.Loops) > 0 && len(e.Idx) == 1 {
+					L := e.Loops[len(e.Loops)-1]
+					for _, w := range in.Events {
+						if w.Kind == "assign" && w.Root == "GlobalVarsMain.W" && innermost(w, L) && len(w.Idx) == 1 && w.Idx[0].Equal(e.Idx[0]) {
+							idxOK = true
+						}
+					}
+					if ok && idxOK && len(inLoopGuards(e, L)) > 0 {
+						// conditional stores must together cover every path of the layer loop
+						var fam [][]*Cond
+						for _, o := range in.Events {
+							if o.Kind == "assign" && o.Root == "GlobalVarsMain.BD" && innermost(o, L) {
+								fam = append(fam, inLoopGuards(o, L))
+							}
+						}
+						if cov, _ := coversAllPaths(fam, nil); !cov {
+							idxOK = false
+						}
+					}
+				}
+				if !idxOK {
+					ok = false
+				}
+				r.Ob("BD-source", p.Pos(e.Pos), ok, fmt.Sprintf("BD[%s] = %s (must be BULK[horizon] unchanged, stored for every expanded layer at the layer's own index: %v; a layer left at 0 or a corrected density makes 3·BD − 1.7 negative)", idxSig(e.Idx), e.Val, idxOK))
 			}
 		}
 	}
@@ -382,6 +407,8 @@ func checkC19(p *Prog, r *Report) {
 		})
 	}
 	r.Ob("class-constants", "-", okConst && nconst >= 5, fmt.Sprintf("%d bulk-density class constants %v, all inside [0.8, 2.2]: %v (measured values from the soil file are assumed admissible)", nconst, vals, okConst))
+	// the measured bulk density of the csv soil layout is the column of that exact name (shared with C13.headers)
+	c13Headers(p, r, "C19.O5b")
 	// ---------------------------------------------------------------- O6
 	r.Rule("C19.O6", "initial profile inside the envelope: at initialisation every node i = 1..N is the convex combination (1 − i/N)·T_surface + (i/N)·T_lower-boundary of the start surface temperature and the constant lower-boundary temperature", 1)
 	if ix := walked(p, "hermes.Init"); ix != nil {
